@@ -75,3 +75,7 @@ PROPS["C19"] = dict(
     level_text="Theorems over the coin-set/selector model (totals = sums over contents for every push/pop/shift history; prefix characterisation of the three simple selectors; the four clauses for min-priority); every run evaluates the property clauses on the real selectors' answers (thorough: exhaustive over <=4 coins x all parameters, 5.6e5 cases).",
     level_note="Trusted: Lean kernel + standard axioms; sort.Sort as stable insertion sort for <=12 elements (the property's scope); container/list as a list; Go runtime; no int64 overflow at these sizes.",
     assumptions=COMMON_ASSUME)
+PROPS["C15"] = dict(
+    level_text="Heap-level model (buffers + slice references) of extendedkey.go with a disjointness invariant over all operation histories and an erasure theorem for Zero; every run replays random histories (NewMaster/NewKeyFromString/Child/Neuter/SetNet/Zero/accessors over a pool of keys) on the real code, comparing every key's serialisation after every step and the *overlap relation between the real slices' address ranges* (hook VerifFieldRanges) with the model's.",
+    level_note=_hd_note + " Memory addresses are read through the verif hook; version slices alias immutable global tables and are excluded from the overlap relation.",
+    assumptions=COMMON_ASSUME)
